@@ -39,6 +39,10 @@ VARTABLE = {
     'phi': ('MYTHORN', 'mythorn-fields'),
     'Pi': ('MYTHORN', 'mythorn-fields'),
     'chi': ('MYTHORN', 'mythorn-fields'),
+    # bracketed names that aurel does not regroup into a tensor
+    'Bvec[0]': ('HYDROBASE', 'hydrobase-bvec'),
+    'Bvec[1]': ('HYDROBASE', 'hydrobase-bvec'),
+    'Bvec[2]': ('HYDROBASE', 'hydrobase-bvec'),
 }
 ALLVARS = list(VARTABLE)
 ET_TO_AUREL = {'alp': 'alpha', 'rho': 'rho0', 'trK': 'Ktrace',
